@@ -139,6 +139,10 @@ struct DetSpec {
     jobs: Vec<Job>,
     threads: usize,
     procs: usize,
+    /// groups of job ids (configurations differing in one setting): for every member a fresh
+    /// process generates that member FIRST and then the rest of its group
+    #[serde(default)]
+    groups: Vec<Vec<u64>>,
 }
 
 fn run_plain(job: &Job) -> (i64, String, usize) {
@@ -229,6 +233,26 @@ pub fn determinism(args: &[String]) -> i32 {
         }
     }
     let _ = std::fs::remove_file(&jf);
+    // (d) process-history dependence: each member of a group first in a fresh process
+    let mut child = 0usize;
+    for g in &spec.groups {
+        for first in g {
+            let mut order: Vec<&Job> = spec.jobs.iter().filter(|j| j.id == *first).collect();
+            order.extend(spec.jobs.iter().filter(|j| g.contains(&j.id) && j.id != *first));
+            let gf = format!("{}.group.json", args[1]);
+            std::fs::write(&gf, serde_json::to_string(&order).unwrap()).unwrap();
+            let o = std::process::Command::new(&exe).arg("gen-batch").arg(&gf).output().unwrap();
+            for l in String::from_utf8_lossy(&o.stdout).lines() {
+                let f: Vec<&str> = l.split(' ').collect();
+                if f.len() == 4 {
+                    writeln!(out, "{}", json!({"ctx": format!("first-{child}"), "job": f[0].parse::<u64>().unwrap(),
+                        "res": f[1].parse::<i64>().unwrap(), "digest": f[2], "len": f[3].parse::<usize>().unwrap()})).unwrap();
+                }
+            }
+            let _ = std::fs::remove_file(&gf);
+            child += 1;
+        }
+    }
     0
 }
 
